@@ -394,19 +394,23 @@ func newStats() *stats {
 	return &stats{firedByRule: map[string]int{}, primaryByRule: map[string]int{}, opsByRule: map[string]map[string]bool{}, sitesByRule: map[string]map[string]bool{}}
 }
 
-// usesFor lists the `use` values under which a case is linted.
-//
-//	full: all rules, each main category (thorough: every category), the planted rule alone
-//	lite: all rules in v2 and v1beta1; in v2 also the planted rule alone
+// Menu levels.
+const (
+	menuFull   = 0 // all rules, each main category (thorough: every category), the planted rule alone; 3 versions
+	menuMedium = 1 // all rules and the planted rule alone; 3 versions
+	menuLite   = 2 // all rules in v2 and v1beta1; the planted rule alone in v2
+)
+
+// usesFor lists the `use` values under which a case is linted in config version t.
 //
 // pv adds configurations that keep PROTOVALIDATE: 0 none; 1: v2 ALL+PV; 2: ALL+PV and the rule alone;
-// 3: ALL+PV, STANDARD+PV and the rule alone.
-func (t *RuleTable) usesFor(rule string, quick, lite bool, pv int) []string {
+// 3: ALL+PV, STANDARD+PV and the rule alone; 4: ALL+PV and (v2) STANDARD+PV.
+func (t *RuleTable) usesFor(rule string, quick bool, menu int, pv int) []string {
 	var uses []string
-	if !lite || t.Version != "v1" {
+	if menu != menuLite || t.Version != "v1" {
 		uses = append(uses, "ALL")
 	}
-	if !lite {
+	if menu == menuFull {
 		var cats []string
 		for _, c := range mainCategories {
 			if _, ok := t.Categories[c]; ok || (c == "DEFAULT" && !quick) {
@@ -431,7 +435,7 @@ func (t *RuleTable) usesFor(rule string, quick, lite bool, pv int) []string {
 		}
 		uses = append(uses, cats...)
 	}
-	if rule != "" && rule != pvRule && (!lite || t.Version == "v2") {
+	if rule != "" && rule != pvRule && (menu != menuLite || t.Version == "v2") {
 		if _, ok := t.Rules[rule]; ok {
 			uses = append(uses, rule)
 		}
@@ -440,10 +444,10 @@ func (t *RuleTable) usesFor(rule string, quick, lite bool, pv int) []string {
 		if pv >= 2 || t.Version == "v2" {
 			uses = append(uses, "ALL+PV")
 		}
-		if pv >= 2 {
+		if pv == 2 || pv == 3 {
 			uses = append(uses, pvRule)
 		}
-		if pv >= 3 {
+		if pv == 3 || (pv == 4 && t.Version == "v2") {
 			uses = append(uses, "STANDARD+PV")
 		}
 	}
@@ -500,7 +504,7 @@ func (rn *runner) runClean(p Params, singleRules bool, pv int) {
 	}
 	n := 0
 	for _, t := range rn.tables {
-		uses := t.usesFor("", rn.r.Quick(), false, pv)
+		uses := t.usesFor("", rn.r.Quick(), menuFull, pv)
 		if singleRules {
 			for _, id := range t.AllIDs {
 				if id != pvRule {
@@ -525,7 +529,7 @@ func (rn *runner) runClean(p Params, singleRules bool, pv int) {
 }
 
 // runPlant applies one plant to a fresh clean workspace and lints it under every configuration.
-func (rn *runner) runPlant(p Params, pl Plant, idx int, lite bool, pv int) {
+func (rn *runner) runPlant(p Params, pl Plant, idx int, menu int, pv int) {
 	spec := Build(p)
 	expects := pl.Apply(spec)
 	rd := spec.Render()
@@ -546,7 +550,7 @@ func (rn *runner) runPlant(p Params, pl Plant, idx int, lite bool, pv int) {
 		return
 	}
 	for _, t := range rn.tables {
-		for _, use := range t.usesFor(pl.Rule, rn.r.Quick(), lite, pv) {
+		for _, use := range t.usesFor(pl.Rule, rn.r.Quick(), menu, pv) {
 			cfg, err := newConfig(t, use, opts)
 			if err != nil {
 				rn.r.Incomplete(err.Error())
@@ -716,14 +720,14 @@ func run(r *evid.Run) {
 	family := cleanFamily(r.Quick())
 	r.ParallelFor(len(family), 0, func(i int) {
 		// every single rule on its own: every 7th member (quick) / every 4th member (thorough);
-		// PROTOVALIDATE-including configurations: every 12th / every 6th member
+		// PROTOVALIDATE-including configurations: every 12th / every 10th member
 		single, pv := i%4 == 0, 0
 		if r.Quick() {
 			single = i%7 == 0
 			if i%12 == 0 {
 				pv = 3
 			}
-		} else if i%6 == 0 {
+		} else if i%10 == 0 {
 			pv = 3
 		}
 		rn.runClean(family[i], single, pv)
@@ -745,49 +749,60 @@ func run(r *evid.Run) {
 		if bi < 3 {
 			seenSite := map[string]bool{}
 			for _, j := range protovalidateJobs(b) {
+				// quick: first base only, one instance per (operator, nesting depth / oneof);
+				// thorough: three bases, one instance per (operator, site role incl. file and scalar type)
+				role := j.pl.Op + "|" + j.pl.Site
 				if r.Quick() {
-					// quick: first base only, one instance per (operator, nesting depth / oneof)
-					role := j.pl.Op + "|" + strings.SplitN(j.pl.Site, ":", 2)[0] + strings.SplitN(j.pl.Site, "/", 3)[1]
-					if bi > 0 || seenSite[role] {
-						continue
-					}
-					seenSite[role] = true
+					role = j.pl.Op + "|" + strings.SplitN(j.pl.Site, ":", 2)[0] + strings.SplitN(j.pl.Site, "/", 3)[1]
 				}
+				if (r.Quick() && bi > 0) || seenSite[role] {
+					continue
+				}
+				seenSite[role] = true
 				jobs = append(jobs, j)
 				opSet[j.pl.Op] = true
 			}
 		}
 	}
-	// Configuration menus. Thorough: the full menu everywhere. Quick: the full menu for the first
-	// instance of every operator on the first base (the configuration dimension does not depend on the
-	// site), the lite menu for every other instance.
-	// PROTOVALIDATE-including configurations: PROTOVALIDATE plants (level 2 quick / 3 thorough); the first
-	// instance of every operator on the first base (thorough, level 3); the first instance of every
-	// planted rule on each base (level 1).
+	// Configuration menus (the configuration dimension does not depend on the site, so the full menu is
+	// spent on one instance per operator): the first instance of every operator on the first base
+	// (thorough: on every base) gets the full menu; every other instance the lite (quick) / medium
+	// (thorough) menu.
+	// PROTOVALIDATE-including configurations: PROTOVALIDATE plants (level 2 quick / 3 thorough); thorough:
+	// the first instance of every operator on the first base (level 4); the first instance of every planted
+	// rule on each base (level 1).
 	pv := make([]int, len(jobs))
-	lite := make([]bool, len(jobs))
+	menu := make([]int, len(jobs))
 	seenOp, seenRule := map[string]bool{}, map[string]bool{}
 	for i, j := range jobs {
 		first := j.p.Key() == bases[0].Key()
-		firstOfOp := first && !seenOp[j.pl.Op]
-		seenOp[j.pl.Op] = seenOp[j.pl.Op] || first
+		opKey := j.pl.Op + "|" + j.p.Key()
+		firstOfOp := !seenOp[opKey]
+		seenOp[opKey] = true
 		ruleKey := j.pl.Rule + "|" + j.p.Key()
 		firstOfRule := !seenRule[ruleKey]
 		seenRule[ruleKey] = true
-		lite[i] = r.Quick() && !firstOfOp
+		switch {
+		case firstOfOp && (first || !r.Quick()):
+			menu[i] = menuFull
+		case r.Quick():
+			menu[i] = menuLite
+		default:
+			menu[i] = menuMedium
+		}
 		switch {
 		case j.pl.Heavy && r.Quick():
-			pv[i], lite[i] = 2, true
+			pv[i], menu[i] = 2, menuLite
 		case j.pl.Heavy:
 			pv[i] = 3
-		case firstOfOp && !r.Quick():
-			pv[i] = 3
+		case firstOfOp && first && !r.Quick():
+			pv[i] = 4
 		case firstOfRule:
 			pv[i] = 1
 		}
 	}
 	r.ParallelFor(len(jobs), 0, func(i int) {
-		rn.runPlant(jobs[i].p, jobs[i].pl, i, lite[i], pv[i])
+		rn.runPlant(jobs[i].p, jobs[i].pl, i, menu[i], pv[i])
 	})
 
 	// ---- CLI binding
